@@ -1284,6 +1284,16 @@ namespace xtl
         m_block &= ~m_mask;
     }
 
+    // A bit reference is a proxy: the generic std::swap would keep a second
+    // proxy of the first bit as its temporary and lose that bit's value.
+    template <class B>
+    inline void swap(xbitset_reference<B, false> lhs, xbitset_reference<B, false> rhs) noexcept
+    {
+        const bool tmp = lhs;
+        lhs = static_cast<bool>(rhs);
+        rhs = tmp;
+    }
+
     /***********************************
      * xbitset_iterator implementation *
      ***********************************/
